@@ -81,6 +81,10 @@ def garbage(framing, side):
         ev.append(('bare-colon-crlf', b':\r\n'))
     if framing == 'binary':
         ev.append(('empty-braces', b'{}'))
+    # a frame whose checksum is right but whose PDU the decoder cannot take (byte count disagreeing with the contents)
+    badpdu = bytes([0x10, 0x00, 0x01, 0x00, 0x02, 0x02, 0x00, 0x0A]) if side == 'req' else bytes([0x03, 0x03, 0x00, 0x07, 0x00])
+    ev.append(('good-checksum-bad-pdu', adu.build(framing, UNIT, badpdu)))
+    ev.append(('good-checksum-unknown-function', adu.build(framing, UNIT, bytes([0x41, 0x00]))))
     # a long burst of line noise without any delimiter of the framing (longer than one, two and four maximum frames)
     for n in (300, 600, 1100, 2100):
         x, out = 12345, bytearray()
